@@ -296,6 +296,7 @@ inline Plan Gen(uint64_t seed)
    X(P_CB_ATTACH, "p.in_callback_attach") \
    X(P_CB_DETACH, "p.in_callback_detach") \
    X(P_DEFERRAL, "p.displaced_branch_deferral") \
+   X(P_DEFERRAL_REPARENT, "p.deferral_by_in_callback_reparent_only") \
    X(P_REPARENT, "p.reparent") \
    X(P_FLOAT_ATTACH, "p.floating_subtree_attached") \
    X(P_DESTROY_IN_TREE, "p.destroy_in_tree") \
@@ -380,11 +381,12 @@ struct H
 
    // An in-callback invalidation at x re-files x and every ancestor below the root; those that are on the active pulse
    // call stack are being swept anyway, the others are the "displaced branches" of DESIGN.md C20.
-   void MarkChain(const Node * x)
+   enum {MARK_INVALIDATE = 1, MARK_REPARENT = 2};
+   void MarkChain(const Node * x, int kind)
    {
-      for (const Node * q = x; (q)&&(!IsRoot(q)); q = Parent(q)) if (!onStack[(size_t)q->_id]) displaced[(size_t)q->_id] = 1;
+      for (const Node * q = x; (q)&&(!IsRoot(q)); q = Parent(q)) if (!onStack[(size_t)q->_id]) displaced[(size_t)q->_id] |= (uint8_t) kind;
    }
-   bool Excused(const Node * n) const {for (const Node * q = n; (q)&&(!IsRoot(q)); q = Parent(q)) if (displaced[(size_t)q->_id]) return true; return false;}
+   int Excused(const Node * n) const {int m = 0; for (const Node * q = n; (q)&&(!IsRoot(q)); q = Parent(q)) m |= displaced[(size_t)q->_id]; return m;}   // 0 = not excused
 
    // ---- operations (cb != NULL: performed from inside cb's Pulse() callback)
    void NoteTime(const Node * x, uint64_t t)
@@ -405,7 +407,7 @@ struct H
       if (isQ) {ctr[K_WANTQ]++; return;}
       if (cb)
       {
-         if (x->_valid) {ctr[K_P_CB_INV]++; MarkChain(x);}
+         if (x->_valid) {ctr[K_P_CB_INV]++; MarkChain(x, MARK_INVALIDATE);}
          else if (x == cb) ctr[K_P_CB_SELF]++;
       }
       Unvalidate(x, CAUSE_INVALIDATED);
@@ -420,9 +422,9 @@ struct H
       Node * op = Parent(x);
       if (op) ctr[K_P_REPARENT]++;
       if ((RootOf(x) < 0)&&(RootOf(y) >= 0)) {bool kids = false; for (const Node * o : nodes) if ((o)&&(o->_mparent == x->_id)) kids = true; if (kids) ctr[K_P_FLOAT_ATTACH]++;}
-      if ((cb)&&(op)) MarkChain(op);
+      if ((cb)&&(op)) MarkChain(op, MARK_REPARENT);
       x->_mparent = y->_id; Unvalidate(x, CAUSE_MOVED);
-      if (cb) {MarkChain(x); ctr[K_P_CB_ATTACH]++;}
+      if (cb) {MarkChain(x, MARK_REPARENT); ctr[K_P_CB_ATTACH]++;}
       th.u((uint64_t) x->_id); th.u((uint64_t) y->_id);
       if (g_verbose) fprintf(stderr, "   %sattach node %d under %d\n", cb ? "[in callback] " : "", x->_id, y->_id);
       y->PutPulseChild(x);
@@ -433,7 +435,7 @@ struct H
       Node * x = Get(ToI(t[a+1])); if ((x == NULL)||(IsRoot(x))) return;
       Node * op = Parent(x); if (op == NULL) return;
       if ((cb)&&(onStack[(size_t)x->_id])) return;
-      if (cb) {MarkChain(op); ctr[K_P_CB_DETACH]++;}
+      if (cb) {MarkChain(op, MARK_REPARENT); ctr[K_P_CB_DETACH]++;}
       x->_mparent = -1; Unvalidate(x, CAUSE_MOVED);
       th.u((uint64_t) x->_id);
       if (g_verbose) fprintf(stderr, "   %sdetach node %d (from %d)\n", cb ? "[in callback] " : "", x->_id, op->_id);
@@ -559,7 +561,8 @@ struct H
       {
          if (n->_pulsedSweep == sweepNo) {ran++; continue;}
          const int rt = RootOf(n); if ((rt < 0)||(!n->_valid)||(n->_reported > rootT[(size_t)rt])) continue;
-         if (Excused(n)) deferred.push_back(n->_id);
+         const int ex = Excused(n);
+         if (ex) {deferred.push_back(n->_id); if ((ex & MARK_INVALIDATE) == 0) ctr[K_P_DEFERRAL_REPARENT]++;}
          else Fail("due_node_not_pulsed", Desc(n) + " is attached and due but its Pulse() did not run in the sweep at " + U(rootT[(size_t)rt]) + (beQuiet ? " (the sweep following a deferral)" : ""));
       }
       if (ran > maxPulsed) maxPulsed = ran;
@@ -641,7 +644,7 @@ inline void Exec(const Plan & plan, RunResult & res)
          else if (t[0] == "destroy") h.OpDestroy(t);
          else if ((t[0] == "want")||(t[0] == "invalidate")||(t[0] == "wantq")) h.OpWant(t, 0, NULL);
          else if ((t[0] == "period")&&(t.size() >= 3)) {Node * x = h.Get(ToI(t[1])); if (x) {x->_period = ToU(t[2]); h.th.u((uint64_t) x->_id); h.th.u(x->_period);}}
-         else if ((t[0] == "incb")&&(t.size() >= 3))   {Node * x = h.Get(ToI(t[1])); if (x) {x->_incb.push_back(std::vector<std::string>(t.begin()+2, t.end())); h.th.u((uint64_t) x->_id);}}
+         else if (((t[0] == "incb")||(t[0] == "incallback"))&&(t.size() >= 3))   {Node * x = h.Get(ToI(t[1])); if (x) {x->_incb.push_back(std::vector<std::string>(t.begin()+2, t.end())); h.th.u((uint64_t) x->_id);}}
          else if ((t[0] == "wake")&&(t.size() >= 2))   h.OpWake(ToI(t[1]));
          else if ((t[0] == "jump")&&(t.size() >= 2))   h.OpJump(ToU(t[1]));
          h.Check();
